@@ -127,7 +127,7 @@ func waitStable(w *hx.Writer, max time.Duration) {
 
 func runHubSeq(a args) error {
 	r := hx.NewRng(a.seed)
-	out := hx.NewOut(a.out, "HubCases", "hub_case", "hub_agree", "hub_agree")
+	out := hx.NewOut(a.out, "HubCases", "hub_case", "hub_agree", "hub_spec_ok")
 	out.ShardSize = 25
 	dir := hx.WorkDir()
 	defer os.RemoveAll(dir)
